@@ -32,20 +32,23 @@
 #include "binarydiff.h"
 
 
+// Two doubles differ if they compare unequal, unless both are NaN (a NaN is not a difference to itself:
+// a particle flagged for removal from the tree has y=NaN and a simulation has to equal its own copy).
+#define REB_DOUBLE_DIFFERS(a, b) (((a) != (b)) && !(((a) != (a)) && ((b) != (b))))
 int reb_particle_diff(struct reb_particle p1, struct reb_particle p2){
     int differ = 0;
-    differ = differ || (p1.x != p2.x);
-    differ = differ || (p1.y != p2.y);
-    differ = differ || (p1.z != p2.z);
-    differ = differ || (p1.vx != p2.vx);
-    differ = differ || (p1.vy != p2.vy);
-    differ = differ || (p1.vz != p2.vz);
-    differ = differ || (p1.ax != p2.ax);
-    differ = differ || (p1.ay != p2.ay);
-    differ = differ || (p1.az != p2.az);
-    differ = differ || (p1.m != p2.m);
-    differ = differ || (p1.r != p2.r);
-    differ = differ || (p1.last_collision != p2.last_collision);
+    differ = differ || REB_DOUBLE_DIFFERS(p1.x, p2.x);
+    differ = differ || REB_DOUBLE_DIFFERS(p1.y, p2.y);
+    differ = differ || REB_DOUBLE_DIFFERS(p1.z, p2.z);
+    differ = differ || REB_DOUBLE_DIFFERS(p1.vx, p2.vx);
+    differ = differ || REB_DOUBLE_DIFFERS(p1.vy, p2.vy);
+    differ = differ || REB_DOUBLE_DIFFERS(p1.vz, p2.vz);
+    differ = differ || REB_DOUBLE_DIFFERS(p1.ax, p2.ax);
+    differ = differ || REB_DOUBLE_DIFFERS(p1.ay, p2.ay);
+    differ = differ || REB_DOUBLE_DIFFERS(p1.az, p2.az);
+    differ = differ || REB_DOUBLE_DIFFERS(p1.m, p2.m);
+    differ = differ || REB_DOUBLE_DIFFERS(p1.r, p2.r);
+    differ = differ || REB_DOUBLE_DIFFERS(p1.last_collision, p2.last_collision);
     differ = differ || (p1.hash != p2.hash);
     return differ;
 }
